@@ -762,6 +762,8 @@ static int runServer(const vf::Args &args, bool socketMode)
   d.socketMode = socketMode;
   d.waitMs = (int)args.u("wait-ms", 250);
   d.longWaitMs = (int)args.u("long-wait-ms", 1500);
+  d.graceMs = (int)args.u("grace-ms", 60);
+  d.longGraceMs = (int)args.u("long-grace-ms", 500);
   d.paceUs = (int)args.u("pace-us", 300);
   if (!d.init()) { vf::out().inconclusive("C15 harness: could not start HttpServer on a free loopback port"); vf::out().flush(); return 2; }
   g_watch.cpuLimitNs = args.u("cpu-limit-ms", 4000) * 1000000ull;
@@ -790,7 +792,7 @@ static int runServer(const vf::Args &args, bool socketMode)
       // hostile input over the real engine: is the I/O thread still alive for other connections?
       double cpu0 = processCpuSec();
       uint64_t w0 = vf::nowNs();
-      if (!d.probeAlive(6000))
+      if (!d.probeAlive((int)args.u("probe-ms", 6000)))
       {
         double cpu = processCpuSec() - cpu0;
         double wall = (vf::nowNs() - w0) / 1e9;
